@@ -20,6 +20,7 @@ def run(ctx):
     dist_all = {}
     for mode, n in (("tight", 220 if quick else 3000), ("natural", 120 if quick else 1500)):
         hs, impls = c15.generate(ctx, n, size, mode)
+        c15.strip(hs, impls)
         nt, dist = c15.stats(ctx, hs, impls)
         ctx.cov["distinct_nontrivial"] += nt
         # boundary census: offered requests exactly tight / one microsecond short
@@ -44,4 +45,5 @@ def run(ctx):
             ctx.broken.append({"kind": "correspondence", "name": stream, "detail": str(e)[-600:]})
         c15.monitors(ctx, hs, impls, stream, once=True)
     ctx.cov["input_distribution"] = dist_all
+    c15.run_corpus(ctx, "S-cw-corpus(C12)")
     return built
